@@ -32,11 +32,11 @@ extern int mpt_message_get(const MPT_STRUCT(queue) *qu, size_t off, size_t take,
 	}
 	else {
 		len = off - low;
-		base = ((uint8_t *) qu->base) + len;
 		if (len > high) {
 			errno = EINVAL;
 			return -1;
 		}
+		base = ((uint8_t *) qu->base) + len;
 		low  = high - len;
 		high = 0;
 	}
